@@ -39,6 +39,7 @@ def _us(n):
 
 _STR_US = {'verif_concretize.0': 20, 'll_strlen.0': 12, 'll_memcmp.0': 12, 'll_memcpy.0': 12, 'll_memmove.0': 12, 'll_memchr.0': 12}
 
+_TUFLAGS = ['-mllvm', '-inline-threshold=0']
 _GEN = '_ZL3genP15CPPPreprocessoriij'
 
 
@@ -56,13 +57,12 @@ def _cond(level, part, decor=0):
         td = {'NLINES': 4, 'NPARTS': _TC, 'PART': part, 'CHARLEVEL': 1, 'DECOR': decor}
         cut = _COND_CUT[5:]   # the character level stays real
     us = dict(_STR_US)
-    us[_GEN] = 8
     for f in _REC:
         us[f] = 8
     h = {'id': hid, 'property': 'C09', 'src': 'c09_cond.cxx', 'entry': 'harness_c09_cond',
          'tus': ['src/cppparser/cppPreprocessor.cxx', 'src/cppparser/cppExpressionParser.cxx', 'src/cppparser/cppExpression.cxx',
                  'src/cppparser/cppDeclaration.cxx', 'src/cppparser/cppFile.cxx', 'src/dtoolutil/filename.cxx'],
-         'skip_ctors': ['cppPreprocessor.cxx'], 'tuflags': ['-fno-inline'],
+         'skip_ctors': ['cppPreprocessor.cxx'], 'tuflags': _TUFLAGS,
          'cut': cut + _UNREACHED + [_DISJUNCT], 'models': ['strdisjunct.c'],
          'cbmc_flags': ['-D', 'VS_CAP=128'],
          'desc': ('process_directive / skip_false_if_block / handle_if*_directive over every well-nested file of directive lines; '
@@ -96,4 +96,4 @@ PROPERTY_INFO = {'C09': {'level': 'model_checking',
 
 NOT_APPLICABLE = {}
 HARNESSES.append(dict(_cond('t', 0), id='c09_tmp', src='/var/tmp/a_c09c17/t5.cxx', tiers=('none',), models=['strdisjunct.c', '/var/tmp/a_c09c17/detect.c']))
-HARNESSES[-1]['bounds'] = {'quick': dict(HARNESSES[-1]['bounds']['quick'], unwind=6, cap=4, unwindset={k: v for k, v in HARNESSES[-1]['bounds']['quick']['unwindset'].items() if k != _GEN})}
+HARNESSES[-1]['bounds'] = {'quick': dict(HARNESSES[-1]['bounds']['quick'], unwind=6, cap=4, defs={'NLINES': 3, 'T5KIND': 'K_DEFINE', 'T5N': 1}, unwindset={k: v for k, v in HARNESSES[-1]['bounds']['quick']['unwindset'].items() if k != _GEN})}
